@@ -260,7 +260,11 @@ def run(ctx):
                 if op[0] in ('gc', 'clear', 'define'):
                     continue
                 if a != b:
-                    unhashable = any(isinstance(x, list) and x and x[0] == 'unhashable' for x in op[1:3])
+                    # F14 is about wrappers of unhashable hints: one anywhere earlier in the history (its address may have been reused by
+                    # a wrapper of this operation) identifies the finding just as one in the operation itself does
+                    def mentions_unhashable(x):
+                        return isinstance(x, list) and bool(x) and (x[0] == 'unhashable' or any(mentions_unhashable(y) for y in x))
+                    unhashable = any(mentions_unhashable(q) for q in case['ops'][:i + 1])
                     shape = {'clause': 'history_dependent_answer', 'op': op[0], 'unhashable_hint': unhashable}
                     if ctx.report(shape, {'case': case, 'index': i, 'op': op, 'after_history': a, 'fresh': b},
                                   'an answer after a history differs from the answer of a pristine interpreter') == 'violation':
